@@ -365,6 +365,28 @@ mod opt {
         fn unignored() {
             ran("hx_select_e2e::opt::gi::unignored")
         }
+
+        /// sets another option, not `ignore`: still ignored through the group
+        #[divan::bench(sample_count = 2)]
+        fn counted() {
+            ran("hx_select_e2e::opt::gi::counted")
+        }
+
+        /// a nested group that sets other options only
+        #[divan::bench_group(sample_size = 3, threads = 1)]
+        pub mod inner {
+            use super::ran;
+
+            #[divan::bench]
+            fn deep() {
+                ran("hx_select_e2e::opt::gi::inner::deep")
+            }
+
+            #[divan::bench(sample_count = 1, ignore = false)]
+            fn deep_unignored() {
+                ran("hx_select_e2e::opt::gi::inner::deep_unignored")
+            }
+        }
     }
 
     // A group whose module chain holds no compiled benchmark (everything below
